@@ -47,7 +47,12 @@ def check_geometry(ctx):
         runs = 0
         for K in ((Ks[:3] if ctx.tier == "quick" else Ks) if takesK else [None]):
             for d in ds:
-                for oracle, res in A.explore(lambda o: PS.run_steps(model, pcls, K, d, True, o, True)):
+                try:
+                    explored = list(A.explore(lambda o: PS.run_steps(model, pcls, K, d, True, o, True)))
+                except A.Unsupported as ex:
+                    bad.setdefault("obligation not discharged: make_children cannot be interpreted (%s)" % ex, []).append("K=%s d=%d" % (K, d))
+                    continue
+                for oracle, res in explored:
                     runs += 1
                     I = res.I
                     draws = {u.sym: (a, b) for (u, a, b) in getattr(I, "uniform_draws", [])}
